@@ -1075,6 +1075,10 @@ class CNLTransformer(Transformer):
             return AggregateOperation.MIN
 
     def VARIABLE(self, elem):
+        # a variable written by the author is taken from the moment it is read (e.g. the label of an entity,
+        # read before the entity's parameters invent their own names)
+        if elem.value not in self._defined_variables:
+            self._defined_variables.append(elem.value)
         return ValueComponent(elem.value)
 
     def COPULA(self, elem):
